@@ -107,7 +107,8 @@ def packU8 (v : Val) : Option PyExc :=
   | some i => if 0 ≤ i ∧ i ≤ 255 then none else some .valueError
   | none => some .typeError
 
-/-- `struct.pack("<f"|"<d", v)`; `limit` = first integer magnitude that no longer converts -/
+/-- `struct.pack("<f"|"<d", v)`; `limit` = first integer magnitude that no longer converts (a `struct.error`;
+    only a *float* too large for `f` is an `OverflowError`) -/
 def packFloat (single : Bool) (v : Val) : Option PyExc :=
   match v with
   | .atom (.float c) => if single ∧ c = .big then some .overflowError else none
@@ -115,7 +116,7 @@ def packFloat (single : Bool) (v : Val) : Option PyExc :=
     match asInt v with
     | some i =>
       let limit : Int := if single then 2 ^ 128 - 2 ^ 103 else 2 ^ 1024 - 2 ^ 970
-      if -limit < i ∧ i < limit then none else some .overflowError
+      if -limit < i ∧ i < limit then none else some .structError   -- CPython wraps the int conversion's OverflowError
     | none => some .structError
 
 def isSurrogate (c : Nat) : Bool := decide (0xD800 ≤ c) && decide (c ≤ 0xDFFF)
@@ -176,7 +177,7 @@ def structCheck : Val → Option PyExc
 /-- what iterating the value yields (`for x in value`), for the values that have a `len()` -/
 def iterOf : Val → Option (List Atom)
   | .atom (.str cps) => some (cps.map fun c => .str [c])
-  | .atom (.bytes d _) => some (d.map fun b => .int (b : Int))
+  | .atom (.bytes d _) => some (d.map fun (b : Nat) => Atom.int (Int.ofNat b))
   | .atom _ => none
   | .seq _ elems => some elems
   | .dict items => some (items.map (·.1))
